@@ -5,6 +5,7 @@ import (
 	"io"
 	"net"
 	"sync"
+	"sync/atomic"
 	"time"
 
 	"github.com/btcsuite/btcd/btcec/v2"
@@ -15,12 +16,20 @@ import (
 // ---- in-memory byte pipe --------------------------------------------------
 
 type byteQueue struct {
-	mu     sync.Mutex
-	cond   *sync.Cond
-	buf    []byte
-	closed bool
-	tap    func(b []byte) []byte // optional MITM rewrite of every chunk written
-	log    [][]byte              // every chunk as written (after tap)
+	mu      sync.Mutex
+	cond    *sync.Cond
+	buf     []byte
+	closed  bool
+	tap     func(b []byte) []byte // optional MITM rewrite of every chunk written
+	log     [][]byte              // every chunk as written (after tap)
+	waiting int                   // readers blocked on an empty queue
+}
+
+// starved reports whether a reader is blocked on this queue with nothing to read.
+func (q *byteQueue) starved() bool {
+	q.mu.Lock()
+	defer q.mu.Unlock()
+	return q.waiting > 0 && len(q.buf) == 0 && !q.closed
 }
 
 func newByteQueue() *byteQueue {
@@ -54,7 +63,9 @@ func (q *byteQueue) read(p []byte, max int) (int, error) {
 	q.mu.Lock()
 	defer q.mu.Unlock()
 	for len(q.buf) == 0 && !q.closed {
+		q.waiting++
 		q.cond.Wait()
+		q.waiting--
 	}
 	if len(q.buf) == 0 {
 		return 0, io.EOF
@@ -160,8 +171,10 @@ func runHandshake(cli, srv *hsSide, cc, sc *memConn) {
 	cli.build(true)
 	srv.build(false)
 	var wg sync.WaitGroup
+	var finished int32
 	run := func(s *hsSide, c *memConn) {
 		defer wg.Done()
+		defer atomic.AddInt32(&finished, 1)
 		if s.NewErr != nil {
 			s.Err = s.NewErr
 			c.Close()
@@ -175,7 +188,33 @@ func runHandshake(cli, srv *hsSide, cc, sc *memConn) {
 	wg.Add(2)
 	go run(cli, cc)
 	go run(srv, sc)
+	// The real callers arm a 5 s read deadline (handshakeReadTimeout). Here a
+	// handshake that can make no progress - every side still running is blocked
+	// on an empty queue - is ended the same way: the blocked reads fail.
+	stop := make(chan struct{})
+	go func() {
+		for {
+			select {
+			case <-stop:
+				return
+			case <-time.After(200 * time.Microsecond):
+			}
+			f := atomic.LoadInt32(&finished)
+			a, b := cc.rd.starved(), sc.rd.starved()
+			if (a && b) || (f == 1 && (a || b)) {
+				// confirm after a short grace period (a writer may be between two writes)
+				time.Sleep(2 * time.Millisecond)
+				f2 := atomic.LoadInt32(&finished)
+				a2, b2 := cc.rd.starved(), sc.rd.starved()
+				if f2 == f && ((a2 && b2) || (f2 == 1 && (a2 || b2))) {
+					cc.rd.close()
+					sc.rd.close()
+				}
+			}
+		}
+	}()
 	wg.Wait()
+	close(stop)
 }
 
 // quickPair returns two handshaken machines (XX, version 2) over a fresh duplex.
